@@ -39,7 +39,7 @@ type Config struct {
 	BinaryMIME        bool   `json:"binarymime,omitempty"`
 	DSN               bool   `json:"dsn,omitempty"`
 	RRVS              bool   `json:"rrvs,omitempty"`
-	TLS               string `json:"tls,omitempty"` // "", "starttls", "implicit"
+	TLS               string `json:"tls,omitempty"` // "", "starttls", "implicit", "wrapped" (implicit TLS from a listener the caller wrapped; Server.TLSConfig unset)
 	ReadTimeoutMs     int    `json:"read_timeout_ms,omitempty"`
 }
 
@@ -156,6 +156,9 @@ type Rig struct {
 	Leftover []string
 }
 
+// ImplicitTLS reports whether connections are under TLS from the first octet.
+func (c Config) ImplicitTLS() bool { return c.TLS == "implicit" || c.TLS == "wrapped" }
+
 func NewRig(cfg Config, script Script) *Rig {
 	hub := NewHub()
 	b := NewBackend(hub, script)
@@ -176,7 +179,7 @@ func NewRig(cfg Config, script Script) *Rig {
 	s.EnableBINARYMIME = cfg.BinaryMIME
 	s.EnableDSN = cfg.DSN
 	s.EnableRRVS = cfg.RRVS
-	if cfg.TLS != "" {
+	if cfg.TLS != "" && cfg.TLS != "wrapped" {
 		s.TLSConfig = ServerTLS()
 	}
 	if cfg.ReadTimeoutMs != 0 {
@@ -190,8 +193,8 @@ func NewRig(cfg Config, script Script) *Rig {
 }
 
 func (r *Rig) serveListener() net.Listener {
-	if r.Cfg.TLS == "implicit" {
-		return tls.NewListener(r.L, r.Srv.TLSConfig)
+	if r.Cfg.ImplicitTLS() {
+		return tls.NewListener(r.L, ServerTLS())
 	}
 	return r.L
 }
@@ -353,7 +356,7 @@ func (r *Rig) Dial() (*Wire, error) {
 	c, s := r.L.Dial()
 	w := &Wire{R: r, C: c, S: s}
 	r.B.SetWireMark(func() int64 { return s.out.written })
-	if r.Cfg.TLS == "implicit" {
+	if r.Cfg.ImplicitTLS() {
 		if err := w.StartTLS(); err != nil {
 			return w, err
 		}
@@ -697,7 +700,7 @@ func (r *Rig) DialConn() (net.Conn, *Wire) {
 	c, s := r.L.Dial()
 	w := &Wire{R: r, C: c, S: s}
 	r.B.SetWireMark(func() int64 { return s.out.written })
-	if r.Cfg.TLS == "implicit" {
+	if r.Cfg.ImplicitTLS() {
 		return tls.Client(c, ClientTLS()), w
 	}
 	return c, w
